@@ -42,10 +42,10 @@ theorem allocation_failure_is_noop (s : State) (h : Nat) (st : List Nat)
 
 /-- a relay index handed out by `AddRelay` is non-zero, was not held in `Relays`, goes to a live tunnel only, and is
 owned by it afterwards -/
-theorem relay_index_fresh (s : State) (i : Inv s) (h : Nat) (st : List Nat) (idx : Nat)
-    (e : (addRelay s h st).2 = .ok idx) :
-    idx ≠ 0 ∧ s.relays.get idx = none ∧ Live s h ∧ (addRelay s h st).1.relays.get idx = some h :=
-  (relayLoop_inv h 32 s st i).2 idx e
+theorem relay_index_fresh (s : State) (i : Inv s) (h : Nat) (rel : Relay) (st : List Nat) (idx : Nat)
+    (e : (addRelay s h rel st).2 = AllocRes.ok idx) :
+    idx ≠ 0 ∧ s.relays.get idx = none ∧ Live s h ∧ (addRelay s h rel st).1.relays.get idx = some h :=
+  (relayLoop_inv h rel 32 s st i).2 idx e
 
 /-- in every reachable state: all held indexes are non-zero, filed under their owner's `localIndexId`, and the pending
 and established namespaces do not overlap -/
@@ -53,7 +53,7 @@ theorem held_indexes_wellformed (ops : List Op) (k h : Nat) :
     let s := run {} ops
     (s.indexes.get k = some h → k ≠ 0 ∧ (s.obj h).lidx = k) ∧
     (s.pidx.get k = some h → k ≠ 0 ∧ (s.obj h).lidx = k ∧ s.indexes.get k = none) ∧
-    (s.relays.get k = some h → k ≠ 0 ∧ k ∈ (s.obj h).relays) := by
+    (s.relays.get k = some h → k ≠ 0 ∧ ((s.rstate h).byIdx.get k).isSome = true) := by
   have i := run_inv ops {} inv_init
   refine ⟨fun e => ?_, fun e => ?_, fun e => ?_⟩
   · obtain ⟨p1, p2⟩ := i.core.idx k h e; exact ⟨p2, p1⟩
@@ -134,6 +134,7 @@ example : (allocateIndex (run {} [.start 1]) 1 [0, 0, 7]).2 = .ok 7 := by decide
 example : (allocateIndex (run {} [.start 1, .alloc 1 [7], .start 2]) 2 [7, 0, 7, 8]).2 = .ok 8 := by decide
 example : (opResp (run {} [.start 1, .alloc 1 [7]]) [2] 1 1 1 [7]).map (·.2.2.2) = some (.collision 1) := by decide
 example : (run {} [.start 2, .alloc 2 [5], .pdel 1, .start 2, .alloc 2 [5], .pdel 1]).pidx.get 5 = some 2 := by decide
-example : (addRelay (run {} [.resp [1] 7 1 1 [5], .relay 1 [9]]) 1 [9, 9, 4]).2 = .ok 4 := by decide
+example : (addRelay (run {} [.resp [1] 7 1 1 [5], .relay 1 { type := 2, state := 2, peer := 3 } [9]]) 1
+    { type := 1, state := 0, peer := 3 } [9, 9, 4]).2 = .ok 4 := by decide
 
 end Nebula.Props.C29
